@@ -4,4 +4,4 @@
 From Coq Require Import ZArith QArith List Extraction ExtrOcamlBasic.
 From Inf Require Import base.ExtrBase model.ConfigM.
 Extraction Language OCaml.
-Extraction "extract/c18_model.ml" extr_anchor check_config normalise setup_config setup_from validb.
+Extraction "extract/c18_model.ml" extr_anchor check_config_g check_config normalise setup_config setup_from_g setup_from validb.
